@@ -202,7 +202,10 @@ def gen_companion(rng, x_term, kind):
                 return vals if rng.random() < 0.7 else {'$t': vals}
             if k == '$idict':
                 return {'$idict': {str(kk): vv for kk, vv in zip(ks, vals)}}
-            return dict(zip(ks, vals))
+            pairs = list(zip(ks, vals))
+            if rng.random() < 0.4:
+                rng.shuffle(pairs)          # the same keys written in another order: dicts are matched by key
+            return dict(pairs)
         return rec(x_term)
     if kind == 'top_only':
         ks, cs = children(x_term)
@@ -211,7 +214,10 @@ def gen_companion(rng, x_term, kind):
             return vals
         if kind_of(x_term) == '$idict':
             return {'$idict': {str(kk): vv for kk, vv in zip(ks, vals)}}
-        return dict(zip(ks, vals))
+        pairs = list(zip(ks, vals))
+        if rng.random() < 0.4:
+            rng.shuffle(pairs)
+        return dict(pairs)
     if kind == 'odd_list':
         return [rng.choice([7, 8, 'o']) for _ in range(7)]
     if kind == 'odd_tuple':
